@@ -3,7 +3,7 @@
    Print Assumptions.  Model: Model/Pause.v (reader recvCheckV2+nextBuffer, gate checkStopAndPause
    +sendDataV2, one direction of a transfer).  All statements are for protocol >= 3 (cP3 cf = true):
    older protocols have no pause handling. *)
-From Trzsz Require Import Base.Bytes Gen.Consts Gen.Skel_pause Model.Pause Proofs.Pause Proofs.PauseComp.
+From Trzsz Require Import Base.Bytes Gen.Consts Gen.Skel_pause Model.Pause Proofs.Pause Proofs.PauseComp Proofs.PauseSim Proofs.PauseHang.
 From Coq Require Import ZArith.
 
 (* the source still has the control structure the model transcribes (regenerated on every run) *)
@@ -126,16 +126,41 @@ Theorem C18_reader_has_timer : forall (L : Type) (cls : L -> lclass) cf, cP3 cf 
 Proof. exact reader_has_timer. Qed.
 Print Assumptions C18_reader_has_timer.
 
-(* the full no-hang statement for the reader: un-paused, it returns within one sleep plus three timeouts
-   (the running timer, a resume's replacement timer, one retried read), whatever happened before.
-   PARTIAL: proved are C18_reader_has_timer (every blocked read has a running timer <= Timeout),
-   C18_timer_in_pause_no_error and C18_gate_resumes; the tick-counting bound below is stated only. *)
+(* the full no-hang statement for the reader: un-paused, it returns within one sleep plus three timeouts,
+   whatever happened before (any number of pauses, resumes, replaced timers, keep-alives).
+   PROVED (Proofs/PauseHang.v), with a tighter bound: max 1 SL + 2 T.  The three contributions are the
+   rest of the sleep in the pausing loop, the read's own timer and the replacement timer of a resume
+   (which run concurrently: together at most T, not 2 T), and ONE retried read: a retry happens only when
+   a pause began after the read took its generation snapshot, the retry's snapshot is current, and no
+   pause begins any more. *)
 Definition C18_long_pause_no_hang_full : Prop :=
   forall (L : Type) (cls : L -> lclass) cf, cP3 cf = true -> (0 < cT cf)%nat ->
   forall s, reachable L cls cf s -> ph s <> PIdle -> pausing (core s) = false ->
   exists k, (k <= S (cSL cf) + 3 * cT cf)%nat /\
     exists o, In (Some o) (snd (rrun L cls cf s (repeat ETick k))).
 
+Theorem C18_long_pause_no_hang_tight : forall (L : Type) (cls : L -> lclass) cf, cP3 cf = true -> (0 < cT cf)%nat ->
+  forall s, reachable L cls cf s -> ph s <> PIdle -> pausing (core s) = false ->
+  exists k, (k <= Nat.max 1 (cSL cf) + 2 * cT cf)%nat /\
+    exists o, In (Some o) (snd (rrun L cls cf s (repeat ETick k))).
+Proof. exact long_pause_no_hang. Qed.
+Print Assumptions C18_long_pause_no_hang_tight.
+
+Theorem C18_long_pause_no_hang : C18_long_pause_no_hang_full.
+Proof. exact long_pause_no_hang_loose. Qed.
+Print Assumptions C18_long_pause_no_hang.
+
+(* the bound is attained up to the sleep: a read that was blocked when a pause began and whose timer
+   expires right after the resume's replacement is retried once; here T = 3, the verdict comes at the
+   6th tick after the resume = 2 T *)
+Example C18_no_hang_two_timeouts :
+  let cf := mkCfg 3 1 1 true in
+  exists s, rrun nat (fun _ => CGood) cf (rinit nat) [ECall; EPause; ETick; ETick; EResume] = (s, [None; None; None; None; None]) /\
+    pausing (core s) = false /\ ph s = PRead 0 /\
+    snd (rrun nat (fun _ => CGood) cf s (repeat ETick 6)) = [None; None; None; None; None; Some (OTimeout true)].
+Proof. vm_compute. eexists. repeat split. Qed.
+
+(* kept from the first round: every blocked read has a running timer *)
 Theorem C18_long_pause_no_hang_partial : forall (L : Type) (cls : L -> lclass) cf, cP3 cf = true ->
   forall es s os snap, rrun L cls cf (rinit L) es = (s, os) -> ph s = PRead snap ->
   has_timer cf (tmo (core s)) /\ stopped (core s) = false.
@@ -149,8 +174,9 @@ Print Assumptions C18_long_pause_no_hang_partial.
    sleep after the previous resume): no side reports an error (no timeout), the frames handed to the
    peer are exactly 0,1,2,... in order (the sequence delivered without any pause), and whenever no
    goroutine can move and no episode is open, all n frames are delivered and acknowledged.
-   PARTIAL: proved for the machine [astep] in which the two readers are replaced by what
-   C18_keepalive_ignored / C18_reader_no_false_timeout say about them (Model/Pause.v, section (c')). *)
+   This is the statement for the machine [astep] in which the two readers are replaced by what
+   C18_keepalive_ignored / C18_reader_no_false_timeout say about them (Model/Pause.v, section (c'));
+   C18_short_pause_completes below is the same for the composition of the reader machines themselves. *)
 Theorem C18_short_pause_completes_partial : forall T' SL GL n W P,
   (1 <= W)%nat -> (1 <= SL)%nat -> (1 <= GL)%nat -> (P + Nat.max SL GL < S T')%nat ->
   forall xs a, arun (mkCfg (S T') SL GL true) n W P (ainit n) xs = Some a ->
@@ -159,14 +185,43 @@ Theorem C18_short_pause_completes_partial : forall T' SL GL n W P,
 Proof. exact short_pause_completes_abs. Qed.
 Print Assumptions C18_short_pause_completes_partial.
 
-(* the full statement: the same for [cstep], the composition that runs the reader machine [rstep] itself
-   on both sides.  Missing: the simulation lemma  crun xs = Some s -> arun xs = Some (abs_of s)  (it is
-   checked by differential execution of the two extracted machines, group "pausecomp") *)
+(* THE SIMULATION that carries the theorem over to [cstep], the composition that runs the reader machine
+   [rstep] itself on both sides: every enabled concrete move from a state satisfying the concrete
+   invariant (our reader is not stopped and has an empty buffer while blocked; the peer's reader never
+   paused, has no replacement timer, is never in the pausing loop; no error so far) is matched by the
+   SAME move of the abstract machine from the abstraction of the state, and unless the abstract machine
+   reports an error the successors are related again. *)
+Theorem C18_simulation : forall T' SL GL n W P s x s',
+  CInv s -> cstep (mkCfg (S T') SL GL true) n W P s x = Some s' ->
+  exists a', astep (mkCfg (S T') SL GL true) n W P (abs_of s) x = Some a' /\
+             (xBad a' = false -> a' = abs_of s' /\ CInv s').
+Proof. exact sim_step. Qed.
+Print Assumptions C18_simulation.
+
+(* the full statement: the same for [cstep].  The side condition "a new pause begins at least one sleep
+   after the previous resume" is built into [cstep] (XPause is not enabled in EpResumed) and IS needed for
+   a bound per pause: a goroutine asleep in a pausing loop looks at the flag only when it wakes up, so
+   two pauses separated by a gap that falls between two wake-ups are ONE pause for it (see
+   C18_gap_shorter_than_sleep_is_invisible below), and only the total length counts. *)
 Definition C18_short_pause_completes_full : Prop := forall T' SL GL n W P,
   (1 <= W)%nat -> (1 <= SL)%nat -> (1 <= GL)%nat -> (P + Nat.max SL GL < S T')%nat ->
   forall xs s, crun (mkCfg (S T') SL GL true) n W P (cinit n) xs = Some s ->
   cErrA s = false /\ cErrR s = false /\ cDeliv s = seq 0 (length (cDeliv s)) /\ (length (cDeliv s) <= n)%nat /\
   (quiescent n W s = true -> cEp s = EpNone -> cDeliv s = seq 0 n /\ cAcked s = n).
+
+Theorem C18_short_pause_completes : C18_short_pause_completes_full.
+Proof. intros T' SL GL n W P HW HSL HGL HP. exact (short_pause_completes_conc T' SL GL n W P HW HSL HGL HP). Qed.
+Print Assumptions C18_short_pause_completes.
+
+(* why pauses must be a sleep apart: a reader in the pausing loop with a 3-tick sleep; resume, one tick,
+   pause again, two ticks -- repeated: it never leaves the loop, although no single pause lasted more
+   than 2 ticks *)
+Example C18_gap_shorter_than_sleep_is_invisible :
+  let cf := mkCfg 9 3 3 true in
+  let round := [EResume; ETick; EPause; ETick; ETick] in
+  exists s, rrun nat (fun _ => CGood) cf (rinit nat) ([EPause; ECall] ++ round ++ round ++ round ++ round ++ round ++ round) = (s, repeat None 32) /\
+    ph s = PGate 1 3.
+Proof. vm_compute. eexists. split; reflexivity. Qed.
 
 (* the real constants: 100 ms ticks, default Timeout 20 s, window kAckChanBufferSize: every pause of up
    to 19.8 s *)
